@@ -1,9 +1,10 @@
 (* C16 — SWC import preserves the traced morphology.  Statements only.
-   The sectioning loop of the reader is not modelled line by line; instead a checker for
-   its OUTPUT is proved sound here and is run (vm_compute) on what read_swc produced for
-   every generated file. *)
+   A checker for the OUTPUT of the reader is proved sound here and is run (vm_compute) on what
+   read_swc produced for every generated file.  The sectioning loop of the reader itself is
+   modelled line by line (Model/SwcRead.v, compared exactly with the code on every generated
+   file) and proved to pass the checker for EVERY well-formed file. *)
 From Coq Require Import List Arith Bool Reals.
-From JV Require Import Swc SwcFacts SetNcompFacts.
+From JV Require Import Swc SwcFacts SetNcompFacts SwcRead SwcReadFacts.
 Import ListNotations.
 
 (* if the checker accepts a sectioning, every section is a parent-child path of one type
@@ -37,6 +38,41 @@ Proof. exact centre_inside. Qed.
 (* total length does not depend on the number of compartments *)
 Theorem C16_length_independent_of_ncomp : forall (L : R) (n : nat), (0 < n)%nat -> (INR n * (L / INR n) = L)%R.
 Proof. exact total_length_preserved. Qed.
+
+
+(* the reader's own loop (_split_into_branches): for EVERY well-formed file — ids 1..n in file
+   order, a single root, every parent before its children, every only-child directly after its
+   parent (as in depth-first order) — and the single-point-soma flag the reader computes, the
+   sections it produces pass the checker above: they are exactly the maximal unbranched
+   same-type paths, every traced point in exactly one of them *)
+Theorem C16_sectioning_loop_correct : forall (rows : list srow) (sps : bool),
+  wf_rows rows -> (sps = true -> 2 <= length rows /\ r_ty (row rows 2) <> r_ty (row rows 1)) ->
+  check_sections (to_swc rows) (map (fun b => (b, rooted_of rows b)) (fst (split_into_branches rows sps))) = true.
+Proof. exact split_into_branches_ok. Qed.
+
+(* ... and the type it records for every section (the lists that become the type groups) is the
+   SWC type of that section's own points, for every well-formed file that starts with a soma point
+   (the defect F24 lived in this bookkeeping) *)
+Theorem C16_section_types_correct : forall (rows : list srow) (sps : bool),
+  wf_rows rows -> r_ty (row rows 1) = 1 ->
+  (sps = true <-> (2 <= length rows /\ r_ty (row rows 2) <> 1)) ->
+  snd (split_into_branches rows sps) = map (stype rows) (fst (split_into_branches rows sps)).
+Proof. exact split_types_ok. Qed.
+
+(* ... and the parent structure _build_parents derives from the SORTED sections passes the verified
+   checker: every section either starts at the root point or hangs on the last point of another
+   section (never on itself), for every well-formed file that starts with a soma point *)
+Theorem C16_section_parents_correct : forall (rows : list srow) (sps : bool),
+  wf_rows rows -> r_ty (row rows 1) = 1 ->
+  (sps = true <-> (2 <= length rows /\ r_ty (row rows 2) <> 1)) ->
+  check_parents (fst (read_sections rows sps)) (snd (snd (read_sections rows sps))) = true.
+Proof. exact read_sections_parents_ok. Qed.
+
+(* non-vacuity of the loop theorem: the model on the example file *)
+Example C16_loop_example :
+  read_sections [(1, 1, 0); (2, 3, 1); (3, 3, 2); (4, 2, 1)] true
+  = ([[1]; [1; 2; 3]; [1; 4]], ([1; 3; 2], [None; Some 0; Some 0])).
+Proof. vm_compute. reflexivity. Qed.
 
 (* non-vacuity: soma 1 with neurites 2-3 (type 3) and 4 (type 2) *)
 Example C16_nonvacuous :
